@@ -300,6 +300,44 @@ var c10Fmts = []string{"%s", "%d", "pre-%s", "%v-x", "%5.2f", "%!", "%s %s", "pl
 
 var c10StrConverts = []string{"ToUpper", "ToLower", "ToJson", "ToBase64", "FromBase64", "ToSha1", "ToSha256", "ToSha512", "ToAdler32", "Bogus", ""}
 
+// c10BigInts: int64 values at and beyond the precision of float64 (2^53): above it neighbouring
+// integers share one float64, so a comparison carried out in float64 loses exactly the ties.
+var c10BigInts = []int64{
+	1 << 53, (1 << 53) - 1, (1 << 53) + 1, (1 << 53) + 2, (1 << 53) - 2, -(1 << 53), -(1 << 53) - 1, -(1 << 53) + 1, -(1 << 53) - 2,
+	1 << 62, (1 << 62) + 1, (1 << 62) - 1, (1 << 62) + 2, (1 << 62) + 511, (1 << 62) - 255, -(1 << 62), -(1 << 62) - 1, -(1 << 62) + 2,
+	9223372036854775807, 9223372036854775806, 9223372036854775805, 9223372036854775295,
+	-9223372036854775808, -9223372036854775807, -9223372036854775806, -9223372036854775296,
+	(1 << 60) + 1, -(1 << 60) - 1, 1 << 54, (1 << 54) + 2, (1 << 54) + 1,
+}
+
+// c10GenBigMath: an int64 input and a math transform whose parameter lies within a few units of
+// it (+-1, +-2, the same value, a value that rounds to the same float64), or a multiplier that
+// takes the product to the int64 boundary.
+func c10GenBigMath(r *Rng) (int64, c10Xf) {
+	in := Pick(r, c10BigInts)
+	near := func() int64 {
+		d := Pick(r, []int64{0, 1, -1, 2, -2, 3, -3, 100, -100, 511, -511})
+		b := in + d
+		if (d > 0 && b < in) || (d < 0 && b > in) { // int64 overflow: stay on the boundary
+			b = in
+		}
+		if r.Chance(1, 5) {
+			b = Pick(r, c10BigInts)
+		}
+		return b
+	}
+	m := &c10Math{Type: Pick(r, []string{"ClampMin", "ClampMax", "ClampMin", "ClampMax", "Multiply", ""})}
+	switch m.Type {
+	case "ClampMin":
+		m.ClampMin = c10P(near())
+	case "ClampMax":
+		m.ClampMax = c10P(near())
+	default:
+		m.Multiply = c10P(Pick(r, []int64{1, -1, 2, -2, 3, 1 << 10, 1 << 11, (1 << 53) + 1, 9223372036854775807, -9223372036854775808}))
+	}
+	return in, c10Xf{Type: "math", Math: m}
+}
+
 func c10GenMath(r *Rng) *c10Math {
 	m := &c10Math{Type: Pick(r, []string{"", "Multiply", "Multiply", "ClampMin", "ClampMax", "Bogus"})}
 	val := func() *int64 {
@@ -798,6 +836,19 @@ func c10GenResolveScn(r *Rng) *c10Scn {
 		}
 		return &c10Scn{Kind: "resolve", Input: c10Enc(in), Xfs: []c10Xf{
 			{Type: "convert", Convert: &c10Convert{ToType: a}}, {Type: "convert", Convert: &c10Convert{ToType: b}}}}
+	}
+	if r.Chance(1, 12) {
+		// int64 inputs and clamp bounds / multipliers at and beyond 2^53
+		bi, t := c10GenBigMath(r)
+		xfs := []c10Xf{t}
+		if r.Chance(1, 4) {
+			_, t2 := c10GenBigMath(r)
+			xfs = append(xfs, t2)
+		}
+		if r.Chance(1, 5) {
+			xfs = append(xfs, c10Xf{Type: "convert", Convert: &c10Convert{ToType: "string"}})
+		}
+		return &c10Scn{Kind: "resolve", Input: c10Enc(bi), Xfs: xfs}
 	}
 	if r.Chance(1, 8) {
 		// numbers as text (and numbers, booleans) through the default conversions
